@@ -486,7 +486,15 @@ def _merge(c, a, b):
         if va == vb:
             out[k] = va
         elif va is None or vb is None:
-            out[k] = ("phi", c, va or ("unknown", "unset"), vb or ("unknown", "unset"))
+            if "." in k:
+                # an attribute path not assigned on one branch keeps its value from before the branch
+                parts = k.split(".")
+                init = ("p", parts[0])
+                for a_ in parts[1:]:
+                    init = ("attr", init, a_)
+                out[k] = ("phi", c, va or init, vb or init)
+            else:
+                out[k] = ("phi", c, va or ("unknown", "unset"), vb or ("unknown", "unset"))
         else:
             out[k] = ("phi", c, va, vb)
     return out
